@@ -65,6 +65,7 @@ def run(check):
         ws = check.witnesses(label, consts, emit='EmitOps', invariants=INVS, coverage=check.tier == 'thorough', limit=limit)
         runs += [(p, t, consts['NRoots']) for p, t in usimrun.replay(check, ws, consts, limit=limit)]
     runs += usimrun.random_runs(check)     # random programs over the whole vocabulary
+    runs += usimrun.teardown_runs(check)   # holders / waiters torn down in every way, then inspected
     runs += usimrun.waiter_runs(check, 'lock')     # 3..6 waiters, some leave from the middle of the waiting list
     traces = [r[1] for r in runs]
     for idx, clause, pos in check.validate('ObsC09', traces):
